@@ -58,6 +58,11 @@ def run(ctx: core.Ctx):
                 kinds[cm[0]] = kinds.get(cm[0], 0) + 1
         if c:
             disagreements.append(c)
+    # ---- the packets byte for byte: packets.make_* against Model/Packets.v, Coq reference decoders on the implementation's bytes
+    import packets_corr
+    npk, pbad, pkinds = packets_corr.run(ctx, "c03p", 60 if ctx.quick else 1500)
+    disagreements += [dict(kind="packet-bytes", **b) for b in pbad if b["kind"].endswith("-bytes")]
+    pdecode = [b for b in pbad if b["kind"].endswith("-decode")]
     # ---- oracle: the protocol's response grammar (Model/Resp.v, evaluated in Coq) on the implementation's packets
     oterms, refs, witness = grammar_terms(drivers)
     oks = core.run_coq_terms(ctx, "c03o", HEADER, oterms, shard=400)
@@ -65,6 +70,8 @@ def run(ctx: core.Ctx):
         if ok is not True and witness is None:
             witness = dict(kind="malformed-response", command=repr(cmd), deprecate_eof=d.depeof,
                            packets=[repr(a) for _, a in pk][:30], events=d.events[:60])
+    if pdecode and witness is None:
+        witness = dict(kind="undecodable-packet", **pdecode[0])
     if witness is not None:
         core.report_violation(ctx, "a command's response is not the one the protocol prescribes", witness)
     if (not pr["ok"] or disagreements) and not ctx.violations:
@@ -78,10 +85,13 @@ def run(ctx: core.Ctx):
         rule="random walks over the real connection (all 14 dispatched commands + unsupported/undecodable ones, DEPRECATE_EOF on/off, "
              "application outcomes: none / result sets of 1-3 columns and 0-12 rows, sync and async sources, exceptions before and at "
              "every row) replayed step by step on Model/Conn.v; plus 300-row results (sequence wrap) and a failure at every row of a "
-             "12-row result; every response of the implementation is run through the protocol grammar Model/Resp.v inside Coq. "
-             "distinct = traces",
+             "12-row result, packets larger than the write buffer; the client offers OPTIONAL_RESULTSET_METADATA / QUERY_ATTRIBUTES in "
+             "half of the connections; every response of the implementation is run through the protocol grammar Model/Resp.v inside "
+             "Coq; packets.make_ok / make_eof / make_error / make_column_definition_41 (also as COM_FIELD_LIST) / make_handshake_v10 on "
+             "random arguments byte for byte against Model/Packets.v and through its reference decoders. distinct = traces",
         samples=[dict(events=drivers[0].events[:12])], distinct=len(drivers),
-        extra=dict(traces=len(drivers), commands=kinds, responses_checked=len(oterms), disagreements=len(disagreements)),
-        assumptions=["packet contents beyond kind/flags/counts are C05's and C16's business",
+        extra=dict(traces=len(drivers), commands=kinds, responses_checked=len(oterms), disagreements=len(disagreements), packet_cases=npk,
+                   packet_kinds=pkinds),
+        assumptions=["row contents are C05's business, catalog contents C16's",
                      "asyncio semantics as transcribed in Model/Conn.v (DESIGN.md appendix B)"],
     )
